@@ -15,6 +15,8 @@ import (
 	"net"
 	"net/http"
 	"net/http/httptest"
+	"os"
+	"strconv"
 	"strings"
 	"testing"
 	"time"
@@ -283,6 +285,37 @@ func c18Start(kind, addr string, w *c18Work) (doWork func() string) {
 	panic("kind")
 }
 
+// c18ListeningPorts returns the local ports of this process's IPv4 sockets in LISTEN state on 127.0.0.1
+// (other processes' listeners are excluded by socket inode).
+func c18ListeningPorts() map[string]bool {
+	b, err := os.ReadFile("/proc/net/tcp")
+	if err != nil {
+		return nil
+	}
+	fds, err := os.ReadDir("/proc/self/fd")
+	if err != nil {
+		return nil
+	}
+	own := map[string]bool{}
+	for _, fd := range fds {
+		if l, err := os.Readlink("/proc/self/fd/" + fd.Name()); err == nil && strings.HasPrefix(l, "socket:[") {
+			own[strings.TrimSuffix(strings.TrimPrefix(l, "socket:["), "]")] = true
+		}
+	}
+	m := map[string]bool{}
+	for _, ln := range strings.Split(string(b), "\n")[1:] {
+		f := strings.Fields(ln)
+		if len(f) < 10 || f[3] != "0A" || !strings.HasPrefix(f[1], "0100007F:") || !own[f[9]] {
+			continue
+		}
+		p, err := strconv.ParseUint(f[1][9:], 16, 16)
+		if err == nil {
+			m[strconv.Itoa(int(p))] = true
+		}
+	}
+	return m
+}
+
 func c18WaitListening(kind, addr string) bool {
 	for i := 0; i < 2000; i++ {
 		c, err := c18Dial(kind, addr)
@@ -297,7 +330,7 @@ func c18WaitListening(kind, addr string) bool {
 
 func TestVerifC18Servers(t *testing.T) {
 	L := ev.Begin("C18", "c18-servers", "exploration",
-		"scenario matrix on real servers started through fabio's own ListenAndServe*: listener {http, https, tcp, grpc, https+tcp+sni, http carrying a websocket tunnel} x in-flight work {none, finishes when released, never ends (hanging handler / open tunnel / open gRPC stream) with a wait of 300ms and of 0} x shutdown moment {before any request, request inside its handler, released right after shutdown began}, sequenced by causal barriers (handler-entered and listener-refuses-connect signals), then proxy.Shutdown(wait); plus every ordered pair of an idle and a busy listener of different kinds whose work ends 300 ms after shutdown began, also with both on the same port number of two local addresses (127.0.0.1:P, 127.0.0.2:P). plus four listeners with never-ending work and a wait of 2s. oracle: after shutdown began connects fail (on every listener, also while others are still draining); released work completes with its normal result; Shutdown returns within wait + 5s slack (a miss means 'did not return'). non-trivial = every scenario")
+		"scenario matrix on real servers started through fabio's own ListenAndServe*: listener {http, https, tcp, grpc, https+tcp+sni, http carrying a websocket tunnel} x in-flight work {none, finishes when released, never ends (hanging handler / open tunnel / open gRPC stream) with a wait of 300ms and of 0, a silent client (connected, sends nothing; wait 300ms)} x shutdown moment {before any request, request inside its handler, released right after shutdown began}, sequenced by causal barriers (handler-entered and listener-refuses-connect signals), then proxy.Shutdown(wait); plus every ordered pair of an idle and a busy listener of different kinds whose work ends 300 ms after shutdown began, also with both on the same port number of two local addresses (127.0.0.1:P, 127.0.0.2:P). plus four listeners with never-ending work and a wait of 2s. plus two listeners of every kind pair from {http, tcp, grpc} both configured with port 0 (bound ports read from /proc/net/tcp). oracle: after shutdown began connects fail (on every listener, also while others are still draining); released work completes with its normal result; Shutdown returns within wait + 5s slack (a miss means 'did not return'). non-trivial = every scenario")
 	kinds := []string{"http", "https", "tcp", "grpc", "https+tcp+sni", "http+ws"}
 	type scn struct {
 		kind string
@@ -305,7 +338,7 @@ func TestVerifC18Servers(t *testing.T) {
 	}
 	var scs []scn
 	for _, k := range kinds {
-		for _, w := range []string{"none", "released", "never", "never/wait=0"} {
+		for _, w := range []string{"none", "released", "never", "never/wait=0", "silent"} {
 			scs = append(scs, scn{k, w})
 		}
 	}
@@ -456,6 +489,51 @@ func TestVerifC18Servers(t *testing.T) {
 			close(w.release)
 		}
 	}
+	// two listeners configured with port 0 (the kernel picks the ports): both are listeners of this
+	// process and both have to stop accepting
+	for _, pr := range [][2]string{{"http", "http"}, {"tcp", "tcp"}, {"tcp", "http"}, {"grpc", "tcp"}} {
+		before := c18ListeningPorts()
+		if before == nil {
+			L.Cap("/proc/net/tcp not readable: port-0 scenarios skipped")
+			break
+		}
+		var addrs []string
+		ok := true
+		for _, k := range pr {
+			c18Start(k, "127.0.0.1:0", newC18Work())
+			var found string
+			for i := 0; i < 2000 && found == ""; i++ {
+				for p := range c18ListeningPorts() {
+					if !before[p] {
+						found = p
+					}
+				}
+				time.Sleep(2 * time.Millisecond)
+			}
+			if found == "" {
+				ok = false
+				break
+			}
+			before[found] = true
+			addrs = append(addrs, "127.0.0.1:"+found)
+		}
+		if !ok {
+			panic("VERIF-INFRA: port-0 listener did not come up")
+		}
+		L.Case()
+		L.NontrivialKey(fmt.Sprint("port0", pr))
+		d := map[string]interface{}{"listeners": pr, "configured": "127.0.0.1:0 (both)", "bound": addrs, "wait": "300ms"}
+		Shutdown(300 * time.Millisecond)
+		for i, a := range addrs {
+			if c, err := c18Dial(pr[i], a); err == nil {
+				c.Close()
+				d["still_accepting"] = a
+				L.Violation("listener-still-accepts-after-shutdown-returned/"+pr[i]+"/port-0", d)
+				break
+			}
+		}
+		L.Sample(d)
+	}
 	var cleanup []*c18Work
 	for _, s := range scs {
 		addr := c18FreeAddr()
@@ -469,7 +547,16 @@ func TestVerifC18Servers(t *testing.T) {
 			panic("VERIF-INFRA: listener did not come up: " + fmt.Sprint(s))
 		}
 		result := make(chan string, 1)
-		if s.work != "none" {
+		if s.work == "silent" {
+			// a client that connected and says nothing (port scanner, TCP health check, half-open client):
+			// open work of the least cooperative kind - not even a handshake or a request to wait for
+			sc, err := net.DialTimeout("tcp", addr, 2*time.Second)
+			if err != nil {
+				panic("VERIF-INFRA: silent client could not connect: " + err.Error())
+			}
+			defer sc.Close()
+			time.Sleep(200 * time.Millisecond) // lets the accept loop pick it up; nothing is asserted on it
+		} else if s.work != "none" {
 			go func() { result <- do() }()
 			select {
 			case <-w.entered:
